@@ -1,15 +1,371 @@
 /-
-  Driver engine stub (Metric): replaced by the real engine; see notes/AGENT_BRIEF.md.
+  Driver engine for C18 (prefix `metric.`): recomputes every reported metric from the observed
+  input rasters with the model (MISMATCH) and evaluates the definitions of
+  Model/MetricSpec.lean on the implementation's observed output (PROPFAIL C18 ...).
+  Line formats: see harness/h_metric.cpp.
 -/
 import PopsModel.Driver.Util
+import PopsModel.Model.MetricSpec
 namespace Pops.Driver.MetricEng
-open Pops Pops.Driver
+open Pops Pops.Driver Pops.Metric
 
-structure State where
-  dummy : Unit := ()
+structure SrRun where
+  model : SpreadRate := default
+  slots : List (Option IRaster) := []     -- raster measured into boundary slot k (observed inputs)
 deriving Inhabited
 
-def handle (st : State) (_cmd : String) (_inp _obs : List String) : State × String :=
-  (st, "BADLINE")
+structure State where
+  rows : Int := 0
+  cols : Int := 0
+  ew : Rat := 1
+  ns : Rat := 1
+  cells : List Cell := []
+  sr : List (Nat × SrRun) := []
+  qAreas : IRaster := default
+  qDirs : Dirs := Dirs.all
+  q : List Quarantine := []
+deriving Inhabited
+
+/-! ### parsing / printing -/
+
+def optRat? (s : String) : Option (Option Rat) :=
+  if s = "nan" then some none else (parseRat? s).map some
+
+def showRat (q : Rat) : String := if q.den = 1 then toString q.num else s!"{q.num}/{q.den}"
+def showOptRat : Option Rat → String
+  | none => "nan"
+  | some q => showRat q
+def showBox (b : Box) : String := s!"{b.n} {b.s} {b.e} {b.w}"
+def showRates (r : Rates) : String :=
+  s!"{showOptRat r.n} {showOptRat r.s} {showOptRat r.e} {showOptRat r.w}"
+
+def box? : List String → Option Box
+  | [a, b, c, d] => do
+    let n ← parseInt? a; let s ← parseInt? b; let e ← parseInt? c; let w ← parseInt? d
+    some ⟨n, s, e, w⟩
+  | _ => none
+
+def rates? : List String → Option Rates
+  | [a, b, c, d] => do
+    let n ← optRat? a; let s ← optRat? b; let e ← optRat? c; let w ← optRat? d
+    some ⟨n, s, e, w⟩
+  | _ => none
+
+def cells? : List String → Option (List Cell)
+  | [] => some []
+  | a :: b :: rest => do
+    let i ← parseInt? a; let j ← parseInt? b
+    let r ← cells? rest
+    some ((i, j) :: r)
+  | _ => none
+
+def raster? (st : State) (toks : List String) : Option IRaster := do
+  let d ← parseInts? toks
+  if (d.length : Int) = st.rows * st.cols then some ⟨st.rows, st.cols, d⟩ else none
+
+def dist? (s : String) : Option Dist :=
+  if s = "nan" then some .nan else if s = "max" then some .max else (parseInt? s).map .val
+
+def showDist : Dist → String
+  | .nan => "nan"
+  | .max => "max"
+  | .val d => toString d
+
+def assocGet {α : Type} (l : List (Nat × α)) (k : Nat) : Option α := (l.find? (·.1 == k)).map (·.2)
+def assocSet {α : Type} (l : List (Nat × α)) (k : Nat) (v : α) : List (Nat × α) :=
+  (k, v) :: l.filter (·.1 != k)
+
+/-- Doubles that are not exact (a quotient by the number of runs): agreement up to 2^-40. -/
+def closeRat (a b : Rat) : Bool :=
+  let d := if a < b then b - a else a - b
+  let m := if b < 0 then -b else b
+  decide (d * 1099511627776 ≤ (if m < 1 then 1 else m))
+
+def closeOpt : Option Rat → Option Rat → Bool
+  | none, none => true
+  | some a, some b => closeRat a b
+  | _, _ => false
+
+def closeRates (a b : Rates) : Bool :=
+  closeOpt a.n b.n && closeOpt a.s b.s && closeOpt a.e b.e && closeOpt a.w b.w
+
+/-! ### definitions evaluated by brute force over the whole raster -/
+
+/-- Infected listed cells found by scanning every cell of the raster. -/
+def scanInfected (st : State) (inf : IRaster) : List Cell :=
+  (allCells st.rows st.cols).filter fun c => st.cells.contains c && decide (inf.at c.1 c.2 > 0)
+
+def nonneg (r : IRaster) : Bool := r.data.all (· ≥ 0)
+
+def isInt (q : Rat) : Bool := q.den == 1
+
+/-! ### handlers -/
+
+def errOr (model : String) (obs : List String) (what : String) : String :=
+  if " ".intercalate obs = model then "ok" else s!"MISMATCH {what} model={model}"
+
+def handleGrid (st : State) (inp : List String) : State × String :=
+  match inp with
+  | r :: c :: ew :: ns :: k :: rest =>
+    match parseInt? r, parseInt? c, parseRat? ew, parseRat? ns, parseNat? k, cells? rest with
+    | some r, some c, some ew, some ns, some k, some cs =>
+      if cs.length = k then ({ rows := r, cols := c, ew := ew, ns := ns, cells := cs }, "ok")
+      else (st, "BADLINE")
+    | _, _, _, _, _, _ => (st, "BADLINE")
+  | _ => (st, "BADLINE")
+
+def handleSrNew (st : State) (inp obs : List String) : State × String :=
+  match inp with
+  | run :: k :: rest =>
+    match parseNat? run, parseNat? k, raster? st rest, box? obs with
+    | some run, some k, some inf, some ob =>
+      let m := SpreadRate.new inf st.cells st.rows st.cols st.ew st.ns k
+      let slots := (List.replicate (k + 1) (none : Option IRaster)).set 0 (some inf)
+      let st' := { st with sr := assocSet st.sr run { model := m, slots := slots } }
+      if ob ≠ specBoxOr (scanInfected st inf) then
+        (st', s!"PROPFAIL C18 bbox expected={showBox (specBoxOr (scanInfected st inf))}")
+      else if m.boundaries.head? ≠ some ob then
+        (st', s!"MISMATCH metric.sr.new model={showBox (m.boundaries.headD default)}")
+      else (st', "ok")
+    | _, _, _, _ => (st, "BADLINE")
+  | _ => (st, "BADLINE")
+
+def handleSrAct (st : State) (inp obs : List String) : State × String :=
+  match inp with
+  | run :: step :: rest =>
+    match parseNat? run, parseNat? step, raster? st rest with
+    | some run, some step, some inf =>
+      match assocGet st.sr run with
+      | none => (st, "BADLINE")
+      | some r =>
+        match r.model.action inf st.cells step, obs with
+        | .error e, [o] => (st, if o = errTok e then "ok" else s!"MISMATCH metric.sr.act model={errTok e}")
+        | .error e, _ => (st, s!"MISMATCH metric.sr.act model={errTok e}")
+        | .ok m, _ =>
+          match box? (obs.take 4), rates? (obs.drop 4) with
+          | some ob, some orates =>
+            let prevR := (r.slots.getD step none)
+            let st' := { st with sr := assocSet st.sr run { model := m, slots := r.slots.set (step + 1) (some inf) } }
+            let cur := scanInfected st inf
+            if ob ≠ specBoxOr cur then (st', s!"PROPFAIL C18 bbox expected={showBox (specBoxOr cur)}")
+            else
+              -- the rate definition applies when the previous measurement found infection
+              let rateFail : Option String :=
+                match prevR with
+                | none => none
+                | some p =>
+                  match specBox (scanInfected st p) with
+                  | none => none
+                  | some b1 =>
+                    if st.ns = 0 || st.ew = 0 then none
+                    else
+                      let want := specRatesOpt st.rows st.cols st.ns st.ew b1 (specBox cur)
+                      if want = orates then none else some (showRates want)
+              match rateFail with
+              | some w => (st', s!"PROPFAIL C18 rate expected={w}")
+              | none =>
+                if m.boundaries.getD (step + 1) default ≠ ob ∨ m.stepRate step ≠ orates then
+                  (st', s!"MISMATCH metric.sr.act model={showBox (m.boundaries.getD (step + 1) default)} {showRates (m.stepRate step)}")
+                else (st', "ok")
+          | _, _ =>
+            (st, s!"MISMATCH metric.sr.act model={showBox (m.boundaries.getD (step + 1) default)} {showRates (m.stepRate step)}")
+    | _, _, _ => (st, "BADLINE")
+  | _ => (st, "BADLINE")
+
+partial def ratesList? (k : Nat) (toks : List String) : Option (List Rates) :=
+  if k = 0 then (if toks.isEmpty then some [] else none) else do
+    let r ← rates? (toks.take 4)
+    let rest ← ratesList? (k - 1) (toks.drop 4)
+    some (r :: rest)
+
+def handleSrAvg (st : State) (inp obs : List String) : State × String :=
+  match inp with
+  | step :: n :: rest =>
+    match parseNat? step, parseNat? n, rates? obs with
+    | some step, some n, some o =>
+      match ratesList? n rest with
+      | none => (st, "BADLINE")
+      | some rl =>
+        let runs := (List.range n).filterMap fun i => (assocGet st.sr i).map (·.model)
+        let want : Rates := ⟨meanDefined (rl.map (·.n)), meanDefined (rl.map (·.s)),
+                            meanDefined (rl.map (·.e)), meanDefined (rl.map (·.w))⟩
+        if !closeRates o want then (st, s!"PROPFAIL C18 average-rate expected={showRates want}")
+        else if runs.length ≠ n then (st, "BADLINE")
+        else if runs.map (·.stepRate step) ≠ rl then (st, "MISMATCH metric.sr.avg step-rates differ from model")
+        else
+          let m := averageSpreadRate runs step
+          (st, if closeRates o m then "ok" else s!"MISMATCH metric.sr.avg model={showRates m}")
+    | _, _, _ => (st, "BADLINE")
+  | _ => (st, "BADLINE")
+
+partial def table? (k : Nat) (toks : List String) : Option (List (Int × Box)) :=
+  if k = 0 then (if toks.isEmpty then some [] else none) else
+    match toks with
+    | id :: rest => do
+      let v ← parseInt? id
+      let b ← box? (rest.take 4)
+      let more ← table? (k - 1) (rest.drop 4)
+      some ((v, b) :: more)
+    | [] => none
+
+def showTable (t : List (Int × Box)) : String :=
+  " ".intercalate (toString t.length :: t.map fun e => s!"{e.1} {showBox e.2}")
+
+def handleQNew (st : State) (inp obs : List String) : State × String :=
+  match inp with
+  | n :: dirs :: k :: rest =>
+    match parseNat? n, parseNat? k, raster? st rest with
+    | some n, some k, some areas =>
+      let text := if dirs = "<empty>" then "" else dirs
+      match Quarantine.new areas st.ew st.ns k text, obs with
+      | .error e, [o] =>
+        ({ st with q := [] }, if o = errTok e then "ok" else s!"MISMATCH metric.q.new model={errTok e}")
+      | .error e, _ => ({ st with q := [] }, s!"MISMATCH metric.q.new model={errTok e}")
+      | .ok q, "ok" :: cnt :: more =>
+        let st' := { st with q := List.replicate n q, qAreas := areas, qDirs := q.dirs }
+        match parseNat? cnt with
+        | none => (st', "BADLINE")
+        | some cnt =>
+          match table? cnt more with
+          | none => (st', "BADLINE")
+          | some tbl =>
+            -- definition: one entry per positive id present, each with its min/max box
+            let ids := (areas.data.filter (· > 0)).eraseDups
+            let idsOK := tbl.all (fun e => ids.contains e.1) && ids.all (fun v => (tbl.filter (·.1 == v)).length == 1)
+            let boxesOK := tbl.all fun e => specAreaBox areas e.1 == some e.2
+            if !(idsOK && boxesOK) then (st', "PROPFAIL C18 area-bbox table differs from min/max over the area's cells")
+            else if tbl ≠ q.table then (st', s!"MISMATCH metric.q.new model=ok {showTable q.table}")
+            else (st', "ok")
+      | .ok q, _ => ({ st with q := [] }, s!"MISMATCH metric.q.new model=ok {showTable q.table}")
+    | _, _, _ => (st, "BADLINE")
+  | _ => (st, "BADLINE")
+
+def showInfo (x : EscapeInfo) : String :=
+  s!"ok {if x.escaped then 1 else 0} {showDist x.dist} {x.dir.name} {x.dir.code}"
+
+def dirOfName? (s : String) : Option Dir :=
+  [Dir.N, Dir.S, Dir.E, Dir.W, Dir.none].find? (·.name == s)
+
+def handleQAct (st : State) (inp obs : List String) : State × String :=
+  match inp with
+  | run :: step :: flag :: rest =>
+    let ncell := (st.rows * st.cols).toNat
+    match parseNat? run, parseNat? step, raster? st (rest.take ncell) with
+    | some run, some step, some inf =>
+      let areas2? : Option IRaster := if flag = "same" then (if rest.length = ncell then some st.qAreas else none)
+        else raster? st (rest.drop ncell)
+      match areas2?, st.q[run]? with
+      | some areas2, some q =>
+        match q.action st.cells inf areas2 step, obs with
+        | .error e, [o] => (st, if o = errTok e then "ok" else s!"MISMATCH metric.q.act model={errTok e}")
+        | .error e, _ => (st, s!"MISMATCH metric.q.act model={errTok e}")
+        | .ok q', ["ok", esc, dist, dname, dcode] =>
+          let st' := { st with q := st.q.set run q' }
+          let mi := (q'.infos.getD step default)
+          match dist? dist, dirOfName? dname with
+          | some od, some odir =>
+            let oesc := esc == "1"
+            let inDomain := flag = "same" && nonneg st.qAreas
+            if inDomain && oesc != specEscaped inf st.qAreas st.cells then
+              (st', s!"PROPFAIL C18 escape-iff expected={specEscaped inf st.qAreas st.cells}")
+            else
+              let nearestFail : Bool :=
+                inDomain && !oesc && !(presentCells inf st.cells).isEmpty && isInt st.ns && isInt st.ew &&
+                decide (0 ≤ st.ns) && decide (0 ≤ st.ew) &&
+                (match od with
+                 | .val d => !nearestOK inf st.qAreas st.cells st.qDirs st.ns.num st.ew.num d odir
+                 | _ => true)
+              if nearestFail then (st', "PROPFAIL C18 nearest reported (distance, direction) is not that of a nearest infected cell")
+              else if toString odir.code ≠ dcode then (st', "MISMATCH metric.q.act direction code")
+              else if (⟨oesc, od, odir⟩ : EscapeInfo) ≠ mi then (st', s!"MISMATCH metric.q.act model={showInfo mi}")
+              else (st', "ok")
+          | _, _ => (st', "BADLINE")
+        | .ok q', _ => (st, s!"MISMATCH metric.q.act model={showInfo (q'.infos.getD step default)}")
+      | _, _ => (st, "BADLINE")
+    | _, _, _ => (st, "BADLINE")
+  | _ => (st, "BADLINE")
+
+def handleQProb (st : State) (inp obs : List String) : State × String :=
+  match inp with
+  | step :: n :: flags =>
+    match parseNat? step, parseNat? n with
+    | some step, some n =>
+      let runs := st.q.take n
+      match escapeProbability runs step, obs with
+      | .error e, [o] => (st, if o = errTok e then "ok" else s!"MISMATCH metric.q.prob model={errTok e}")
+      | .error e, _ => (st, s!"MISMATCH metric.q.prob model={errTok e}")
+      | .ok p, [o] =>
+        match optRat? o with
+        | none => (st, s!"MISMATCH metric.q.prob model={showOptRat p}")
+        | some op =>
+          let fl := flags.map (· == "1")
+          if fl.length ≠ n then (st, "BADLINE")
+          else if !closeOpt op (fractionTrue fl) then
+            (st, s!"PROPFAIL C18 escape-probability expected={showOptRat (fractionTrue fl)}")
+          else if (runs.map fun q => (q.infos.getD step default).escaped) ≠ fl then
+            (st, "MISMATCH metric.q.prob escape flags differ from model")
+          else (st, if closeOpt op p then "ok" else s!"MISMATCH metric.q.prob model={showOptRat p}")
+      | _, _ => (st, "BADLINE")
+    | _, _ => (st, "BADLINE")
+  | _ => (st, "BADLINE")
+
+def handleQDd (st : State) (inp obs : List String) : State × String :=
+  match inp with
+  | [step, n] =>
+    match parseNat? step, parseNat? n with
+    | some step, some n =>
+      let m := match distanceDirection (st.q.take n) step with
+        | .error e => errTok e
+        | .ok l => " ".intercalate (l.map fun x => s!"{showDist x.1} {x.2.code}")
+      (st, errOr m obs "metric.q.dd")
+    | _, _ => (st, "BADLINE")
+  | _ => (st, "BADLINE")
+
+def handleQCsv (st : State) (inp obs : List String) : State × String :=
+  match inp with
+  | [k, n] =>
+    match parseNat? k, parseNat? n with
+    | some k, some n =>
+      let m := match writeQuarantineEscape (st.q.take n) k with
+        | .error e => errTok e
+        | .ok s => s.replace "\n" "|"
+      (st, if " ".intercalate obs = m then "ok" else "MISMATCH metric.q.csv model=" ++ (m.take 300).toString)
+    | _, _ => (st, "BADLINE")
+  | _ => (st, "BADLINE")
+
+def handleStat (st : State) (inp obs : List String) : State × String :=
+  match raster? st inp, obs with
+  | some inf, [s, a] =>
+    match parseInt? s, parseRat? a with
+    | some os, some oa =>
+      -- definitions over all index pairs of the raster; they apply when every infected cell is listed once
+      let covered := nonneg inf && st.cells.eraseDups.length == st.cells.length &&
+        (allCells st.rows st.cols).all fun c => inf.at c.1 c.2 == 0 || st.cells.contains c
+      let total := rasterSum inf st.rows st.cols
+      let count := rasterCount inf st.rows st.cols
+      if covered && decide (total < 4294967296) && os ≠ total then
+        (st, s!"PROPFAIL C18 sum expected={total}")
+      else if covered && oa ≠ (count : Rat) * st.ew * st.ns then
+        (st, s!"PROPFAIL C18 area expected={showRat ((count : Rat) * st.ew * st.ns)}")
+      else
+        let ms := sumOfInfected inf st.cells
+        let ma := areaOfInfected inf st.ew st.ns st.cells
+        (st, if ms = os ∧ ma = oa then "ok" else s!"MISMATCH metric.stat model={ms} {showRat ma}")
+    | _, _ => (st, "BADLINE")
+  | _, _ => (st, "BADLINE")
+
+def handle (st : State) (cmd : String) (inp obs : List String) : State × String :=
+  match cmd with
+  | "metric.grid" => handleGrid st inp
+  | "metric.sr.new" => handleSrNew st inp obs
+  | "metric.sr.act" => handleSrAct st inp obs
+  | "metric.sr.avg" => handleSrAvg st inp obs
+  | "metric.q.new" => handleQNew st inp obs
+  | "metric.q.act" => handleQAct st inp obs
+  | "metric.q.prob" => handleQProb st inp obs
+  | "metric.q.dd" => handleQDd st inp obs
+  | "metric.q.csv" => handleQCsv st inp obs
+  | "metric.stat" => handleStat st inp obs
+  | _ => (st, "BADLINE")
 
 end Pops.Driver.MetricEng
